@@ -36,6 +36,10 @@ ASSUMPTIONS = [
     "account link: the scripted exchange sends an update to the subscription that exists when it is produced (none: lost); "
     "a snapshot naming a foreign asset cannot be indexed and fails the attempt; requests are for an instrument of the "
     "manager's own exchange with client delays below the timeout (or never answered: the timeout failure)",
+    "account link, overrun family: the real MockExecution client is used through a delegating client that logs the two "
+    "calls, stamps the exchange's snapshot with the attempt number and stops answering after the planned connections; a "
+    "subscription that lagged (more notifications than the broadcast capacity between two polls) is a connection that "
+    "ended at that point: what was published into the overrun belongs to no connection",
     "account link: the name tables are read off the implementation's IndexedInstruments (C11 answers for them)",
 ]
 
@@ -59,7 +63,10 @@ def anomaly(line):
 
 def scenario_of(seg):
     r = seg[0]
-    return {k: r.get(k) for k in ("x", "cc", "pol", "T", "script", "reqs")}
+    scn = {k: r.get(k) for k in ("x", "cc", "pol", "T", "script", "reqs")}
+    if r.get("mock"):        # overrun family (real MockExecution client): the plan re-generates the scenario
+        scn["mock"] = r["mock"]
+    return scn
 
 
 def short(line):
@@ -125,7 +132,11 @@ def run(ctx, own_tags, mc=False, n=None):
     info_gen = ctx.harness("acctlink", "run", "--scenarios", p_scn, "--out", t_gen)
     # ---- seeded random scenarios of the harness (longer scripts, more updates and requests)
     t_rnd, p_rnd = ctx.path("trace_acctlink_random.ndjson"), ctx.path("acctlink_random_scn.ndjson")
-    info_rnd = ctx.harness("acctlink", "random", "--seed", ctx.seed, "--n", n, "--out", t_rnd, "--scn-out", p_rnd)
+    #      + the overrun family over the REAL MockExecution client / MockExchange task with a small notification
+    #      capacity: a burst larger than the capacity while the merged stream is not polled ends the connection there
+    #      (one notice, re-subscription, fresh snapshot) - never a silent gap
+    info_rnd = ctx.harness("acctlink", "random", "--seed", ctx.seed, "--n", n, "--mock", 12 if ctx.quick else 120,
+                           "--out", t_rnd, "--scn-out", p_rnd)
     merged = ctx.path("trace_acctlink.ndjson")
     with open(merged, "w") as f:
         for p in (t_gen, t_rnd):
@@ -141,7 +152,7 @@ def run(ctx, own_tags, mc=False, n=None):
             while_link[k] = while_link.get(k, 0) + v
         missing += ["response while the link is %s" % s for s in ("up", "waiting", "initialising") if while_link.get(s, 0) == 0]
         for f in ("unindexable_updates_scripted", "updates_between_subscribe_and_snapshot", "of_which_config_refused",
-                  "attempts_snapshot_unindexable"):
+                  "attempts_snapshot_unindexable", "overruns", "bursts_within_capacity"):
             if info_gen.get(f, 0) + info_rnd.get(f, 0) == 0:
                 missing.append(f)
         if missing:
